@@ -98,7 +98,47 @@ func runC02(c *Ctx) {
 		ta, ok := asserts[k.typ]
 		key := "rr-kind:" + strings.TrimPrefix(k.typ, "*github.com/miekg/dns.")
 		if !ok {
-			r.Fail("C02-D1", key, p.FnPos(fr), "the answer loop has no case for "+k.typ+" records: a blocked target/address in such a record is delivered")
+			// the dispatch on the record kind may live in a helper (e.g. one that returns the host and type to
+			// check): then a value taken from this kind of record must still flow into the rule check
+			okFlow := false
+			fns := []*ssa.Function{fr}
+			for h := range core.StaticReach(fr, 2) {
+				if h != fr && core.PkgOf(h) == "dnsforward" {
+					fns = append(fns, h)
+				}
+			}
+			for _, f := range fns {
+				for _, call := range core.CallsTo(f, k.via) {
+					if k.field == "" {
+						for _, o := range core.Origins(call.Arg(1), core.ProvOpts{Prog: p, InterprocDepth: 3, IntoModuleCalls: true}) {
+							if ta2, isTA := o.Val.(*ssa.TypeAssert); isTA && core.TypeKey(ta2.AssertedType) == k.typ {
+								okFlow = true
+							}
+							if ex, isE := o.Val.(*ssa.Extract); isE {
+								if ta2, isTA := ex.Tuple.(*ssa.TypeAssert); isTA && core.TypeKey(ta2.AssertedType) == k.typ {
+									okFlow = true
+								}
+							}
+						}
+						if ex, isE := call.Arg(1).(*ssa.Extract); isE {
+							if ta2, isTA := ex.Tuple.(*ssa.TypeAssert); isTA && core.TypeKey(ta2.AssertedType) == k.typ {
+								okFlow = true
+							}
+						}
+						continue
+					}
+					os := core.Origins(call.Arg(1), core.ProvOpts{Prog: p, InterprocDepth: 3, IntoModuleCalls: true, Transparent: map[string]bool{
+						"strings.TrimSuffix": true, "(net.IP).String": true, "strings.ToLower": true,
+					}})
+					for _, o := range os {
+						if o.Kind == "field" && o.Key == strings.TrimPrefix(k.typ, "*")+"."+k.field {
+							okFlow = true
+						}
+					}
+				}
+			}
+			r.Check(okFlow, "C02-D1", key, p.FnPos(fr), "a value taken from records of this kind (through a helper) is checked against the rules",
+				"the answer loop has no case for "+k.typ+" records: a blocked target/address in such a record is delivered")
 			continue
 		}
 		// the ok edge of this assertion leads to a call of `via` whose argument derives from the asserted value's field
@@ -149,10 +189,18 @@ func runC02(c *Ctx) {
 		r.Undecided("C02-D1", "filterHTTPSRecords", "-", "anchor not found")
 	} else {
 		got := map[string]bool{}
-		for _, b := range fh.Blocks {
-			for _, in := range b.Instrs {
-				if ta, ok := in.(*ssa.TypeAssert); ok {
-					got[core.TypeKey(ta.AssertedType)] = true
+		hfns := []*ssa.Function{fh}
+		for h := range core.StaticReach(fh, 2) {
+			if h != fh && core.PkgOf(h) == "dnsforward" {
+				hfns = append(hfns, h)
+			}
+		}
+		for _, hf := range hfns {
+			for _, b := range hf.Blocks {
+				for _, in := range b.Instrs {
+					if ta, ok := in.(*ssa.TypeAssert); ok {
+						got[core.TypeKey(ta.AssertedType)] = true
+					}
 				}
 			}
 		}
